@@ -1,2 +1,265 @@
-(* C10 -- property theorems only *)
+(* C10 -- property theorems only.  Each is closed by [exact <lemma>] (or a two-line combination of
+   lemmas) and followed by Print Assumptions.  All theorems are about the [fixed] variant of the
+   model (the code with pending_fixes C10_1..3 applied); the Examples at the end exhibit, inside
+   Coq, how the [asis] variant (the code as first found) violates the same statements. *)
 From V Require Import Common.NumFacts C10.Model C10.Proofs.
+
+(* lookup_pure: whatever the earlier lookups, writes, index_overlap / mix_from calls were -- any
+   number of them, so that both bounded caches have filled and evicted -- each of the three cached
+   look-ups returns the pure classification of the key computed from the name table alone *)
+Theorem C10_lookup_pure : forall c ixs hist k,
+  let s := fst (run fixed c (mkst [] [] ixs) hist) in
+  snd (chem_lookup (tb c) (scc s) k) = classify_chem (tb c) k
+  /\ (forall phs, snd (mat_lookup fixed (tb c) phs (scc s) (mc_get (smc s) phs) k) = classify_mat fixed (tb c) phs k)
+  /\ (forall cas, snd (overlap fixed (tb c) (scc s) cas) = overlap_pure (tb c) cas).
+Proof. exact lookup_pure_lemma. Qed.
+Print Assumptions C10_lookup_pure.
+
+(* ... hence what indexer[key] returns (value or error class) after any history is a function of
+   the table, the data and the key only *)
+Theorem C10_read_history_independent : forall c ixs hist i k,
+  snd (step fixed c (after c ixs hist) (OGet i k)) =
+  match nth_error (sixs (after c ixs hist)) i with
+  | Some (IC d) => obs_of_read (read_chem (tb c) d k)
+  | Some (IM phs rows) => obs_of_read (read_mat fixed (tb c) (nchem c) phs rows k)
+  | None => BErr EOther
+  end.
+Proof. exact read_after_history. Qed.
+Print Assumptions C10_read_history_independent.
+
+(* ... and likewise what indexer[key] = data does (new data and error class) *)
+Theorem C10_write_history_independent : forall c ixs hist i k dt,
+  snd (step fixed c (after c ixs hist) (OSet i k dt)) =
+  match nth_error (sixs (after c ixs hist)) i with
+  | Some (IC d) => let (d', e) := write_chem c d k dt in BWr e [d']
+  | Some (IM phs rows) => let (r', e) := write_mat c phs rows k dt in BWr e r'
+  | None => BErr EOther
+  end.
+Proof. exact write_after_history. Qed.
+Print Assumptions C10_write_history_independent.
+
+(* lookup_total + get_refines, single-phase data: for every valid key (spec_chem is defined: an
+   ID/alias/CAS, a group, a tuple or list of them, the ellipsis) and after every history the read
+   does not raise and returns exactly the listed entries of the dense data, group entries summed *)
+Theorem C10_get_refines_chem : forall c ixs hist i d k v,
+  nth_error (sixs (after c ixs hist)) i = Some (IC d) ->
+  spec_chem (tb c) d k = Some v ->
+  snd (step fixed c (after c ixs hist) (OGet i k)) = BVal v.
+Proof.
+  intros c ixs hist i d k v Hi Hs. rewrite read_after_history, Hi.
+  rewrite (get_refines_chem_lemma _ _ _ _ Hs). reflexivity.
+Qed.
+Print Assumptions C10_get_refines_chem.
+
+(* ... multi-phase data: chemical keys read the phase-summed data; a phase letter (exact, or
+   case-insensitive when unambiguous) reads its row; (phase, key), (..., key), (phase, ...) and
+   (..., ...) read the corresponding entries per row *)
+Theorem C10_get_refines_mat : forall c ixs hist i phs rows k v,
+  nth_error (sixs (after c ixs hist)) i = Some (IM phs rows) -> rows <> [] ->
+  spec_mat (tb c) phs (nchem c) rows k = Some v ->
+  snd (step fixed c (after c ixs hist) (OGet i k)) = BVal v.
+Proof.
+  intros c ixs hist i phs rows k v Hi NE Hs. rewrite read_after_history, Hi.
+  rewrite (get_refines_mat_lemma _ _ _ _ _ _ NE Hs). reflexivity.
+Qed.
+Print Assumptions C10_get_refines_mat.
+
+(* lookup_total at the level of the cached look-up itself (eviction paths included) *)
+Theorem C10_lookup_total : forall c ixs hist phs rows k v,
+  rows <> [] -> spec_mat (tb c) phs (nchem c) rows k = Some v ->
+  let s := after c ixs hist in
+  exists m, snd (mat_lookup fixed (tb c) phs (scc s) (mc_get (smc s) phs) k) = Ok m /\ mat_get (nchem c) rows m = Ok v.
+Proof.
+  intros c ixs hist phs rows k v NE Hs s.
+  destruct (lookup_pure_lemma c ixs hist k) as (_ & M & _). unfold s, after. rewrite (M phs).
+  pose proof (get_refines_mat_lemma _ _ _ _ _ _ NE Hs) as R. unfold read_mat in R.
+  destruct (classify_mat fixed (tb c) phs k) as [m|e]; simpl in R; [|discriminate].
+  exists m. auto.
+Qed.
+Print Assumptions C10_lookup_total.
+
+(* set_get: a name.  The written value is read back; no other entry moves *)
+Theorem C10_set_get_name : forall t cs d s i x d' e,
+  tget t s = Some (Pos i) -> (i < length d)%nat ->
+  classify_chem t (KStr s) = Ok (COne (Pos i), Some 0%nat) /\
+  (set_sparse cs d (COne (Pos i)) (Some 0%nat) (DNum x) (KStr s) = (d', e) ->
+   e = None /\ length d' = length d /\ get_sparse d' (COne (Pos i)) (Some 0%nat) = Ok (VNum x) /\
+   forall j, j <> i -> nthq d' j = nthq d j).
+Proof. exact set_get_name_lemma. Qed.
+Print Assumptions C10_set_get_name.
+
+(* set_get: a tuple/list of chemicals with a vector, or with a broadcast scalar *)
+Theorem C10_set_get_list : forall cs d xs v k d' e,
+  existsb is_grp xs = false -> NoDup (poss xs) -> length (poss xs) = length v ->
+  Forall (fun i => (i < length d)%nat) (poss xs) ->
+  set_sparse cs d (CMany xs) (Some 3%nat) (DVec v) k = (d', e) ->
+  e = None /\ length d' = length d /\ map (nthq d') (poss xs) = v /\
+  forall j, ~ In j (poss xs) -> nthq d' j = nthq d j.
+Proof. exact set_get_list_lemma. Qed.
+Print Assumptions C10_set_get_list.
+
+Theorem C10_set_get_list_scalar : forall cs d xs x k d' e,
+  existsb is_grp xs = false -> NoDup (poss xs) ->
+  Forall (fun i => (i < length d)%nat) (poss xs) ->
+  set_sparse cs d (CMany xs) (Some 3%nat) (DNum x) k = (d', e) ->
+  e = None /\ length d' = length d /\ map (nthq d') (poss xs) = repeat x (length (poss xs)) /\
+  forall j, ~ In j (poss xs) -> nthq d' j = nthq d j.
+Proof. exact set_get_list_scalar_lemma. Qed.
+Print Assumptions C10_set_get_list_scalar.
+
+(* set_get: a group with one value per member *)
+Theorem C10_set_get_group_vec : forall cs d l v k d' e,
+  NoDup l -> length l = length v -> Forall (fun i => (i < length d)%nat) l ->
+  set_sparse cs d (COne (Grp l)) (Some 1%nat) (DVec v) k = (d', e) ->
+  e = None /\ length d' = length d /\ map (nthq d') l = v /\
+  get_sparse d' (COne (Grp l)) (Some 1%nat) = Ok (VNum (qsum v)) /\
+  forall j, ~ In j l -> nthq d' j = nthq d j.
+Proof. exact set_get_group_vec_lemma. Qed.
+Print Assumptions C10_set_get_group_vec.
+
+(* group_scalar: a scalar written to a group is distributed by the group's composition, reads back
+   as x * sum(composition) (= x for the normalised compositions define_group stores), nothing else moves *)
+Theorem C10_group_scalar : forall cs d l x s c d' e,
+  sassoc cs s = Some c -> NoDup l -> length l = length c -> Forall (fun i => (i < length d)%nat) l ->
+  set_sparse cs d (COne (Grp l)) (Some 1%nat) (DNum x) (KStr s) = (d', e) ->
+  e = None /\ length d' = length d /\
+  (forall j, (j < length l)%nat -> nthq d' (nth j l O) == x * nthq c j) /\
+  (exists y, get_sparse d' (COne (Grp l)) (Some 1%nat) = Ok (VNum y) /\ y == x * qsum c) /\
+  forall j, ~ In j l -> nthq d' j = nthq d j.
+Proof. exact group_scalar_lemma. Qed.
+Print Assumptions C10_group_scalar.
+
+(* set_get: a tuple mixing chemicals and groups, one value per element: chemicals get their value,
+   each group's value is distributed by its (normalised) composition; reading back returns the
+   written values; nothing else moves *)
+Theorem C10_set_get_nested : forall cs d ts v k d' e,
+  nested_ok cs ts (key_elems k) -> length v = length ts -> NoDup (flat_targets ts) ->
+  Forall (fun i => (i < length d)%nat) (flat_targets ts) ->
+  set_sparse cs d (CMany ts) (Some 2%nat) (DVec v) k = (d', e) ->
+  e = None /\ length d' = length d /\
+  (exists w, get_sparse d' (CMany ts) (Some 2%nat) = Ok (VVec w) /\ Forall2 Qeq w v) /\
+  forall j, ~ In j (flat_targets ts) -> nthq d' j = nthq d j.
+Proof. exact set_get_nested_lemma. Qed.
+Print Assumptions C10_set_get_nested.
+
+(* set_get: the ellipsis replaces all data *)
+Theorem C10_set_get_all : forall cs d v k d' e,
+  length v = length d -> set_sparse cs d CAll None (DVec v) k = (d', e) -> e = None /\ d' = v.
+Proof. exact set_get_all_lemma. Qed.
+Print Assumptions C10_set_get_all.
+
+(* set_get, multi-phase: a write through (phase, key) is the single-phase write on that row and
+   leaves every other row untouched *)
+Theorem C10_set_row_frame : forall cs rows p ci kd dt k rows' e,
+  mat_set cs rows (MPair (Some p) ci, Some kd, false) dt k = (rows', e) ->
+  rows' = upd rows p (fst (set_sparse cs (nth p rows []) ci (Some kd) dt (second k))) /\
+  e = snd (set_sparse cs (nth p rows []) ci (Some kd) dt (second k)) /\
+  forall q, q <> p -> nth q rows' [] = nth q rows [].
+Proof.
+  intros cs rows p ci kd dt k rows' e H. destruct (mat_set_row _ _ _ _ _ _ _ _ _ H) as [H1 H2].
+  repeat split; auto. intros q Hq. rewrite H1. apply upd_rows_other. exact Hq.
+Qed.
+Print Assumptions C10_set_row_frame.
+
+(* names_single: after compilation every name of chemical i -- its ID, its CAS number, every
+   compile-time name not shared with another chemical -- resolves to position i ... *)
+Theorem C10_names_single : forall cs c0 i ch n,
+  wf_chems cs -> compile cs = Ok c0 ->
+  nth_error cs i = Some ch -> In n (chem_names cs ch) -> tget (tb c0) n = Some (Pos i).
+Proof. exact names_single_compile. Qed.
+Print Assumptions C10_names_single.
+
+(* ... set_alias / define_group calls never change that (as long as no group takes the name), and
+   an accepted alias resolves to the position of the name it was attached to *)
+Theorem C10_names_kept : forall ops c n x,
+  (forall o, In o ops -> group_name o <> Some n) ->
+  tget (tb c) n = Some x -> tget (tb (fst (cbuild c ops))) n = Some x.
+Proof. exact cbuild_preserves. Qed.
+Print Assumptions C10_names_kept.
+
+Theorem C10_alias_resolves : forall c id a c' x,
+  cstep c (CAlias id a) = (c', None) -> tget (tb c) id = Some x -> tget (tb c') a = Some x.
+Proof. exact alias_resolves. Qed.
+Print Assumptions C10_alias_resolves.
+
+(* ------------------------------------------------------------------ non-vacuity and witnesses *)
+Open Scope string_scope.
+Definition ex_chems := [mkchem "A_" "A_" [] 16; mkchem "B_" "10-00-1" ["bee"] 32; mkchem "C_" "C_" ["cee"; "bee"] 8].
+Definition ex_cfg : cfg :=
+  match compile ex_chems with
+  | Ok c0 => fst (cbuild c0 [CAlias "A_" "ay"; CGroup "G" ["B_"; "C_"] (Some [1; 3]) false])
+  | Err _ => mkcfg [] [] [] 0
+  end.
+Definition ex_ixs := [IC [1; 2; 4]; IM ["g"; "l"] [[1; 0; 4]; [1 # 2; 2; 0]]].
+
+(* all bit strings of length 1..n as tuples over A_/B_: 2^(n+1) - 2 distinct valid keys *)
+Fixpoint bit_keys (n : nat) : list (list key) :=
+  match n with
+  | O => [[]]
+  | S m => flat_map (fun l => [KStr "A_" :: l; KStr "B_" :: l]) (bit_keys m)
+  end.
+Definition many_keys : list key :=
+  flat_map (fun n => map (fun l => KTup [KStr "l"; KTup l]) (bit_keys n)) [1; 2; 3; 4; 5; 6; 7; 8]%nat.
+Definition long_hist : list op := map (OGet 1) many_keys.
+
+Example C10_wf_example : wf_chems ex_chems.
+Proof.
+  repeat split.
+  - repeat constructor; simpl; intuition discriminate.
+  - repeat constructor; simpl; intuition discriminate.
+  - intros i j a b Hi Hj E.
+    destruct i as [|[|[|i]]]; destruct j as [|[|[|j]]]; simpl in *; try discriminate; auto;
+      try (inversion Hi; inversion Hj; subst; simpl in E; discriminate);
+      try (destruct i; discriminate); try (destruct j; discriminate).
+Qed.
+
+(* the hypotheses of the read theorems are met, with caches that have really filled and evicted:
+   510 distinct valid keys on one MaterialIndexer, then keys of all forms *)
+Example C10_nonvacuous :
+  length many_keys = 510%nat /\
+  (let s := after ex_cfg ex_ixs long_hist in
+   length (mc_get (smc s) ["g"; "l"]) = 410%nat /\ length (scc s) = 100%nat) /\
+  tget (tb ex_cfg) "10-00-1" = Some (Pos 1) /\ tget (tb ex_cfg) "cee" = Some (Pos 2) /\
+  tget (tb ex_cfg) "bee" = None /\ tget (tb ex_cfg) "G" = Some (Grp [1; 2]%nat) /\
+  spec_chem (tb ex_cfg) [1; 2; 4] (KTup [KStr "ay"; KStr "G"]) = Some (VVec [1; 6]) /\
+  spec_mat (tb ex_cfg) ["g"; "l"] 3 [[1; 0; 4]; [1 # 2; 2; 0]] (KList [KStr "L"; KList [KStr "G"; KStr "A_"]]) = Some (VVec [2; 1 # 2]) /\
+  spec_mat (tb ex_cfg) ["g"; "l"] 3 [[1; 0; 4]; [1 # 2; 2; 0]] (KTup [KStr "l"; KEll]) = Some (VVec [1 # 2; 2; 0]) /\
+  snd (step fixed ex_cfg (after ex_cfg ex_ixs long_hist) (OGet 1 (KTup [KEll; KStr "G"]))) = BVal (VVec [4; 2]) /\
+  snd (step fixed ex_cfg (after ex_cfg ex_ixs long_hist) (OSet 0 (KStr "G") (DNum 8))) = BWr None [[1; 8 # 4; 24 # 4]].
+Proof. vm_compute. repeat split; reflexivity. Qed.
+
+Example C10_nested_nonvacuous :
+  nested_ok (comps ex_cfg) [Pos 0; Grp [1; 2]%nat] (key_elems (KTup [KStr "ay"; KStr "G"])) /\
+  set_sparse (comps ex_cfg) [1; 2; 4] (CMany [Pos 0; Grp [1; 2]%nat]) (Some 2%nat) (DVec [5; 8]) (KTup [KStr "ay"; KStr "G"])
+    = ([5; 8 # 4; 24 # 4], None).
+Proof.
+  split; [|vm_compute; reflexivity].
+  apply nok_pos. eapply nok_grp; [vm_compute; reflexivity|reflexivity|vm_compute; reflexivity|apply nok_nil].
+Qed.
+
+(* the code as first found in /repo violates the same statements (one witness per defect):
+   trim_cache raises at the 501st distinct key although the key is valid ... *)
+Example C10_asis_trim_refuted :
+  let s := fst (run asis ex_cfg (mkst [] [] ex_ixs) (firstn 500 long_hist)) in
+  let k := nth 500 many_keys KEll in
+  spec_mat (tb ex_cfg) ["g"; "l"] 3 [[1; 0; 4]; [1 # 2; 2; 0]] k = Some (VVec [1 # 2; 2; 2; 1 # 2; 2; 2; 2; 2]) /\
+  snd (step asis ex_cfg s (OGet 1 k)) = BErr EType /\
+  snd (step fixed ex_cfg (after ex_cfg ex_ixs (firstn 500 long_hist)) (OGet 1 k)) = BVal (VVec [1 # 2; 2; 2; 1 # 2; 2; 2; 2; 2]).
+Proof. vm_compute. repeat split; reflexivity. Qed.
+
+(* ... index_overlap leaves a list index under kind 0 in the shared cache: the same CAS tuple then
+   fails as a key (the result depends on the earlier mix_from) ... *)
+Example C10_asis_overlap_refuted :
+  let h := [OMix 0 ["C_"; "A_"] [16; 8]] in
+  let k := KTup [KStr "C_"; KStr "A_"] in
+  snd (step asis ex_cfg (fst (run asis ex_cfg (mkst [] [] ex_ixs) h)) (OGet 0 k)) = BErr EType /\
+  snd (step asis ex_cfg (mkst [] [] ex_ixs) (OGet 0 k)) = BVal (VVec [4; 1]) /\
+  snd (step fixed ex_cfg (after ex_cfg ex_ixs h) (OGet 0 k)) = BVal (VVec [16; 8]).
+Proof. vm_compute. repeat split; reflexivity. Qed.
+
+(* ... and (phase, ...) cannot be read *)
+Example C10_asis_phase_ellipsis_refuted :
+  let k := KTup [KStr "l"; KEll] in
+  snd (step asis ex_cfg (mkst [] [] ex_ixs) (OGet 1 k)) = BErr EType /\
+  snd (step fixed ex_cfg (mkst [] [] ex_ixs) (OGet 1 k)) = BVal (VVec [1 # 2; 2; 0]).
+Proof. vm_compute. repeat split; reflexivity. Qed.
